@@ -11,12 +11,51 @@ structure Cx where
   rs : List (List LItem)
   N : List Src.Node
   hlab : (labelIds rs.flatten).Nodup
+  /-- the label zone of the node table: the nodes `allocLabels` made have indices below `Z` -/
+  Z : Nat := 0
+  /-- the label table of the front end at the end: user label name ↦ label number -/
+  named : List (String × Nat) := []
+  /-- the user labels defined somewhere in the program -/
+  defs : List String := []
+
+/-- the environments of the translation: no macro substitution, no macro to return from, label nodes in the label zone -/
+structure EnvOK (cx : Cx) (env : Src.Env) : Prop where
+  subst : env.subst = []
+  ret : env.ret = none
+  dense : ∀ n i, env.labels.lookup n = some i → 0 < i ∧ i < cx.Z
+
+theorem envOK_empty (cx : Cx) : EnvOK cx {} := ⟨rfl, rfl, fun n i h => by cases h⟩
+
+theorem EnvOK.plain {cx : Cx} {env : Src.Env} (h : EnvOK cx env) : PlainEnv env := ⟨h.1, h.2⟩
 
 abbrev EE (cx : Cx) (m : Nat) (p : LPos) (n : Nat) : Prop := E (labLTS cx.rs) (nodeLTS cx.N) m p n
 abbrev GG (cx : Cx) (j m : Nat) (p : LPos) (n : Nat) : Prop := G (labLTS cx.rs) (nodeLTS cx.N) j (E (labLTS cx.rs) (nodeLTS cx.N) m) p n
 
 /-- agreement for `m` observable steps, and one layer more with silent searches bounded by `j` -/
 def R2 (cx : Cx) (m j : Nat) (p : LPos) (n : Nat) : Prop := EE cx m p n ∧ GG cx j m p n
+
+/-- the label table only gets new entries -/
+def NamedLe (s s' : St) : Prop := ∀ n id, s.named.lookup n = some id → s'.named.lookup n = some id
+
+theorem NamedLe.refl (s : St) : NamedLe s s := fun _ _ h => h
+theorem NamedLe.trans {a b c : St} (h1 : NamedLe a b) (h2 : NamedLe b c) : NamedLe a c := fun n id h => h2 n id (h1 n id h)
+
+/-- the entries of a state's label table are entries of the final label table -/
+def NamedIn (cx : Cx) (s : St) : Prop := ∀ n id, s.named.lookup n = some id → cx.named.lookup n = some id
+
+theorem NamedIn.le {cx : Cx} {s s' : St} (h : NamedIn cx s') (hle : NamedLe s s') : NamedIn cx s := fun n id hn => h n id (hle n id hn)
+
+/-- the loop and case stacks are as before, the label table only has new entries -/
+structure SameStk (s s' : St) : Prop where
+  loops : s'.loops = s.loops
+  cases : s'.cases = s.cases
+  named : NamedLe s s'
+
+theorem SameStk.refl (s : St) : SameStk s s := ⟨rfl, rfl, NamedLe.refl s⟩
+theorem SameStk.trans {a b c : St} (h1 : SameStk a b) (h2 : SameStk b c) : SameStk a c :=
+  ⟨h2.1.trans h1.1, h2.2.trans h1.2, h1.3.trans h2.3⟩
+theorem sameStk_tickedOp (s : St) (n : Nat) : SameStk s (s.tickedOp n) := ⟨rfl, rfl, NamedLe.refl s⟩
+theorem sameStk_tickedLbl (s : St) (n : Nat) : SameStk s (s.tickedLbl n) := ⟨rfl, rfl, NamedLe.refl s⟩
 
 theorem R2.down {cx : Cx} {m j m' : Nat} (j' : Nat) {p : LPos} {n : Nat} (h : R2 cx m j p n) (hlt : m' < m) : R2 cx m' j' p n := by
   have h1 : EE cx (m' + 1) p n := E.le (by omega) h.1
@@ -83,6 +122,8 @@ structure ExitsOK (cx : Cx) (m j : Nat) (s : St) (env : Src.Env) : Prop where
   loop : ∀ cl bl rest, s.loops = (cl, bl) :: rest → ∃ kc kb, env.cont = some kc ∧ env.brkLoop = some kb ∧
     R2 cx m j (target cx.rs cl) kc ∧ R2 cx m j (target cx.rs bl) kb
   case : ∀ e rest, s.cases = e :: rest → ∃ kb, env.brk = some kb ∧ R2 cx m j (target cx.rs e) kb
+  /-- a user label of the program and its node -/
+  labs : ∀ n id, n ∈ cx.defs → cx.named.lookup n = some id → ∃ i, env.labels.lookup n = some i ∧ R2 cx m j (target cx.rs id) i
 
 theorem ExitsOK.down {cx : Cx} {m j m' : Nat} (j' : Nat) {s : St} {env : Src.Env} (h : ExitsOK cx m j s env) (hlt : m' < m) :
     ExitsOK cx m' j' s env :=
@@ -91,7 +132,10 @@ theorem ExitsOK.down {cx : Cx} {m j m' : Nat} (j' : Nat) {s : St} {env : Src.Env
     exact ⟨kc, kb, a, b, c.down j' hlt, d.down j' hlt⟩,
    fun e rest hs => by
     obtain ⟨kb, a, b⟩ := h.case e rest hs
-    exact ⟨kb, a, b.down j' hlt⟩⟩
+    exact ⟨kb, a, b.down j' hlt⟩,
+   fun n id hn hid => by
+    obtain ⟨i, a, b⟩ := h.labs n id hn hid
+    exact ⟨i, a, b.down j' hlt⟩⟩
 
 theorem ExitsOK.monoJ {cx : Cx} {m j j' : Nat} {s : St} {env : Src.Env} (h : ExitsOK cx m j s env) (hle : j' ≤ j) :
     ExitsOK cx m j' s env :=
@@ -100,13 +144,57 @@ theorem ExitsOK.monoJ {cx : Cx} {m j j' : Nat} {s : St} {env : Src.Env} (h : Exi
     exact ⟨kc, kb, a, b, c.monoJ hle, d.monoJ hle⟩,
    fun e rest hs => by
     obtain ⟨kb, a, b⟩ := h.case e rest hs
-    exact ⟨kb, a, b.monoJ hle⟩⟩
+    exact ⟨kb, a, b.monoJ hle⟩,
+   fun n id hn hid => by
+    obtain ⟨i, a, b⟩ := h.labs n id hn hid
+    exact ⟨i, a, b.monoJ hle⟩⟩
 
 theorem ExitsOK.same {cx : Cx} {m j : Nat} {s s1 : St} {env : Src.Env} (h : ExitsOK cx m j s env) (hl : s1.loops = s.loops)
     (hc : s1.cases = s.cases) : ExitsOK cx m j s1 env :=
-  ⟨fun cl bl rest hs => h.loop cl bl rest (by rw [← hl]; exact hs), fun e rest hs => h.case e rest (by rw [← hc]; exact hs)⟩
+  ⟨fun cl bl rest hs => h.loop cl bl rest (by rw [← hl]; exact hs), fun e rest hs => h.case e rest (by rw [← hc]; exact hs), h.labs⟩
 
 /-! ### the statement about a collected piece -/
+
+/-! ### the nodes of user labels -/
+
+/-- the label nodes the translation from `b` to `b'` set: each belongs to a label item of the program, and behind that item control
+is at the continuation of the label statement (`kn`: what the node was set to) -/
+def LabExport (cx : Cx) (env : Src.Env) (m j : Nat) (b b' : Src.B) : Prop :=
+  ∀ i kn, i < (tbl b).length → (tbl b')[i]? = some (.silent kn) → (tbl b')[i]? ≠ (tbl b)[i]? →
+    ∃ n id P nm, env.labels.lookup n = some i ∧ cx.named.lookup n = some id ∧ itemAt cx.rs P = some (.label id nm) ∧ R2 cx m j P.next kn
+
+/-- the export of a part of the translation, on a shorter table that agrees with it -/
+theorem LabExport.mono {cx : Cx} {env : Src.Env} {m j : Nat} {b b' b1 b1' : Src.B} (h : LabExport cx env m j b1 b1')
+    (hlen : (tbl b).length ≤ (tbl b1).length) (hb : ∀ i, i < (tbl b).length → (tbl b1)[i]? = (tbl b)[i]?)
+    (hb' : ∀ i, i < (tbl b).length → (tbl b')[i]? = (tbl b1')[i]?) : LabExport cx env m j b b' := by
+  intro i kn hi h1 h2
+  exact h i kn (by omega) (by rw [← hb' i hi]; exact h1) (by rw [← hb' i hi, hb i hi]; exact h2)
+
+theorem LabExport.same {cx : Cx} {env : Src.Env} {m j : Nat} {b b' : Src.B} (h : ∀ i, i < (tbl b).length → (tbl b')[i]? = (tbl b)[i]?) :
+    LabExport cx env m j b b' := fun i _ hi _ h2 => absurd (h i hi) h2
+
+theorem LabExport.comp {cx : Cx} {env : Src.Env} {m j : Nat} {b b1 b' : Src.B} (hlen : (tbl b).length ≤ (tbl b1).length)
+    (h1 : LabExport cx env m j b b1) (h2 : LabExport cx env m j b1 b') : LabExport cx env m j b b' := by
+  intro i kn hi e1 e2
+  by_cases hc : (tbl b')[i]? = (tbl b1)[i]?
+  · exact h1 i kn hi (by rw [← hc]; exact e1) (by rw [← hc]; exact e2)
+  · exact h2 i kn (by omega) e1 hc
+
+/-- only pushes -/
+def Pushes (b b' : Src.B) : Prop := ∃ extra, tbl b' = tbl b ++ extra
+
+theorem Pushes.refl (b : Src.B) : Pushes b b := ⟨[], by simp⟩
+theorem Pushes.trans {a b c : Src.B} (h1 : Pushes a b) (h2 : Pushes b c) : Pushes a c := by
+  obtain ⟨x, hx⟩ := h1
+  obtain ⟨y, hy⟩ := h2
+  exact ⟨x ++ y, by rw [hy, hx, List.append_assoc]⟩
+theorem Pushes.push (b : Src.B) (n : Src.Node) : Pushes b (b.push n).1 := ⟨[n], (tbl_push b n).1⟩
+theorem Pushes.grow {Z : Nat} {b b' : Src.B} (h : Pushes b b') : Grow Z b b' := by
+  obtain ⟨x, hx⟩ := h; exact Grow.of_append hx
+theorem Pushes.same {b b' : Src.B} (h : Pushes b b') {i : Nat} (hi : i < (tbl b).length) : (tbl b')[i]? = (tbl b)[i]? := by
+  obtain ⟨x, hx⟩ := h; rw [hx, List.getElem?_append_left hi]
+theorem Pushes.len {b b' : Src.B} (h : Pushes b b') : (tbl b).length ≤ (tbl b').length := by
+  obtain ⟨x, hx⟩ := h; rw [hx]; simp
 
 /-- can control run past the end of the piece (`_process_block` asks the same before it appends the end jump) -/
 abbrev falls (items : List LItem) : Bool := needsEndJump items
@@ -120,16 +208,35 @@ table agrees with what `trf` built, the entry of the piece and the entry node ag
 structure PieceOK (cx : Cx) (items : List LItem) (s s' : St) (trf : Nat → Src.B → Src.B × Nat) (env : Src.Env) : Prop where
   loops : s'.loops = s.loops
   cases : s'.cases = s.cases
+  named : NamedLe s s'
   last : lastNotCtx items = true
   nonone : NoNone items
   /-- an empty piece stands for nothing -/
   empty : items = [] → ∀ k b, trf k b = (b, k)
   /-- a piece that is one `Jump` (`_process_block` may fold it into the header jumps): the statement goes to an exit -/
-  lone : ∀ l, loneJump items = some (some l) → ∀ m j, ExitsOK cx m j s env → ∃ n, (∀ k b, trf k b = (b, n)) ∧
+  lone : ∀ l, loneJump items = some (some l) → ∀ m j, ExitsOK cx m j s env → NamedIn cx s' → ∃ n, (∀ k b, trf k b = (b, n)) ∧
     R2 cx m j (target cx.rs l) n
-  grow : ∀ k b, Grow b (trf k b).1
-  corr : ∀ r i0, Placed cx.rs r i0 items → afterCtxL cx.rs ⟨r, i0⟩ = false → ∀ k b, AgreeOn cx.N b (trf k b).1 →
-    ∀ m j, ExitsOK cx m j s env → (falls items = true → R2 cx m j ⟨r, i0 + items.length⟩ k) → R2 cx m j ⟨r, i0⟩ (trf k b).2
+  grow : ∀ k b, Grow cx.Z b (trf k b).1
+  /-- entry position and entry node agree; and every label node the translation set belongs to a label item, behind which
+  control is at the continuation of the label statement -/
+  full : ∀ r i0, Placed cx.rs r i0 items → afterCtxL cx.rs ⟨r, i0⟩ = false → ∀ k b, AgreeOn cx.N cx.Z b (trf k b).1 →
+    ∀ m j, ExitsOK cx m j s env → NamedIn cx s' → (falls items = true → R2 cx m j ⟨r, i0 + items.length⟩ k) →
+      R2 cx m j ⟨r, i0⟩ (trf k b).2 ∧ LabExport cx env m j b (trf k b).1
+
+theorem PieceOK.stk {cx : Cx} {items : List LItem} {s s' : St} {trf : Nat → Src.B → Src.B × Nat} {env : Src.Env}
+    (h : PieceOK cx items s s' trf env) : SameStk s s' := ⟨h.loops, h.cases, h.named⟩
+
+theorem PieceOK.corr {cx : Cx} {items : List LItem} {s s' : St} {trf : Nat → Src.B → Src.B × Nat} {env : Src.Env}
+    (h : PieceOK cx items s s' trf env) (r i0 : Nat) (hp : Placed cx.rs r i0 items) (hpre : afterCtxL cx.rs ⟨r, i0⟩ = false) (k : Nat) (b : Src.B)
+    (hag : AgreeOn cx.N cx.Z b (trf k b).1) (m j : Nat) (hex : ExitsOK cx m j s env) (hin : NamedIn cx s')
+    (hcont : falls items = true → R2 cx m j ⟨r, i0 + items.length⟩ k) : R2 cx m j ⟨r, i0⟩ (trf k b).2 :=
+  (h.full r i0 hp hpre k b hag m j hex hin hcont).1
+
+theorem PieceOK.labs {cx : Cx} {items : List LItem} {s s' : St} {trf : Nat → Src.B → Src.B × Nat} {env : Src.Env}
+    (h : PieceOK cx items s s' trf env) (r i0 : Nat) (hp : Placed cx.rs r i0 items) (hpre : afterCtxL cx.rs ⟨r, i0⟩ = false) (k : Nat) (b : Src.B)
+    (hag : AgreeOn cx.N cx.Z b (trf k b).1) (m j : Nat) (hex : ExitsOK cx m j s env) (hin : NamedIn cx s')
+    (hcont : falls items = true → R2 cx m j ⟨r, i0 + items.length⟩ k) : LabExport cx env m j b (trf k b).1 :=
+  (h.full r i0 hp hpre k b hag m j hex hin hcont).2
 
 /-! ### `falls` of a sequence -/
 
